@@ -454,9 +454,8 @@ mod proofs {
         c04_t_try_extend_l3_k3 = try_extend_body::<3, 3>; c04_t_try_extend_l4_k1 = try_extend_body::<4, 1>;
         c04_t_try_extend_l4_k3 = try_extend_body::<4, 3>;
     }
-    #[cfg(feature = "thorough")]
-    inst! {
-        c04_t_seq2_l0 = seq2_body::<0>; c04_t_seq2_l1 = seq2_body::<1>; c04_t_seq2_l2 = seq2_body::<2>;
-        c04_t_seq2_l3 = seq2_body::<3>; c04_t_seq2_l4 = seq2_body::<4>;
-    }
+    // (sequences of two symbolically chosen operations were measured and dropped: the second operation works
+    // on a Vec whose length became symbolic -> 14 GB exhausted; histories are covered by the one-step
+    // induction from an arbitrary state instead)
+
 }
